@@ -475,14 +475,22 @@ def expanded_config(config, rng=None):
     for mother, entries in c["decay"].items():
         ents = entries if isinstance(entries[0], list) else [entries]
         for m_ in slots.get(mother, [mother]):
+            per_entry = []
             for ent in ents:
                 names_ = [x for x in ent if not isinstance(x, dict)]
                 optd = [x for x in ent if isinstance(x, dict)]
-                for combo in itertools.product(*[slots.get(x, [x]) for x in names_]):
-                    newdec.setdefault(m_, []).append(list(combo) + copy.deepcopy(optd))
-    if rng is not None:
-        for m_ in newdec:
-            newdec[m_] = [newdec[m_][j] for j in rng.permutation(len(newdec[m_]))]
+                per_entry.append([list(combo) + copy.deepcopy(optd) for combo in itertools.product(*[slots.get(x, [x]) for x in names_])])
+            if rng is None:
+                newdec[m_] = [e for grp in per_entry for e in grp]
+            else:
+                # round robin over the original entries (one entry = one topology): A->R1 D, A->S1 C, A->R2 D, ... ; the
+                # order inside an entry and of the entries is random
+                per_entry = [[grp[j] for j in rng.permutation(len(grp))] for grp in per_entry]
+                per_entry = [per_entry[j] for j in rng.permutation(len(per_entry))]
+                merged = []
+                for k in range(max(len(g) for g in per_entry)):
+                    merged += [g[k] for g in per_entry if k < len(g)]
+                newdec[m_] = merged
     c["decay"] = newdec
     for k in slots:
         del c["particle"][k]
